@@ -246,6 +246,22 @@ def r02b(model, ctx):
     ok = len(wild) == 1 and wild[0] is not None and pmatch("patterns is None", wild[0].test) is not None
     ctx.check(ok, R, "_emit_switch:match-default", "`case _:` emitted only for the default case",
               "`case _:` (match everything) must be emitted only when patterns is None", f"{PYRTL}:{fn.lineno}")
+    # nothing may follow the wildcard pattern in a `match` statement (Python rejects it at compile time): the match-form loop
+    # stops after the default case (the later cases are unreachable anyway)
+    okb = False
+    for lp in ast.walk(fn):
+        if isinstance(lp, ast.For) and unparse(lp.iter) == "cases" and any(
+                isinstance(x, ast.Call) and dotted(x.func) == "case_handler" for x in ast.walk(lp)):
+            for st in lp.body:
+                if isinstance(st, ast.If) and pmatch("patterns is None", st.test) is not None and \
+                        any(isinstance(x, ast.Break) for x in st.body) and \
+                        lp.body.index(st) > max(i_ for i_, y in enumerate(lp.body) if any(
+                            isinstance(x, ast.Call) and dotted(x.func) == "case_handler" for x in ast.walk(y))):
+                    okb = True
+    ctx.check(okb, R, "_emit_switch:match-nothing-after-default", "the match form stops after the default case",
+              "in the `match` form nothing may be emitted after `case _:` — Python refuses to compile a match statement whose "
+              "wildcard pattern is followed by other patterns, so a Switch with cases after Default() could not be simulated",
+              f"{PYRTL}:{fn.lineno}")
     # match form iterates cases in order
     mloops = [n for n in ast.walk(fn) if isinstance(n, ast.For) and unparse(n.iter) == "cases" and
               any(isinstance(x, ast.Call) and dotted(x.func) == "case_handler" for x in ast.walk(n))]
@@ -793,83 +809,177 @@ def _P(src):
     return poly(ast.parse(src, mode="eval").body)
 
 
+def _neg(p):
+    return {m: -c for m, c in p.items()}
+
+
+def _sign_under(p, facts):
+    """sign information of polynomial p under facts [(poly, kind)], kind in {"neg", "nonneg", "pos", "nonpos"}; returns one
+    of those kinds or None"""
+    if not p:
+        return "zero"
+    if list(p.keys()) == [()]:
+        return "pos" if p[()] > 0 else "neg"
+    flip = {"neg": "pos", "pos": "neg", "nonneg": "nonpos", "nonpos": "nonneg"}
+    for q, kind in facts:
+        if p == q:
+            return kind
+        if p == _neg(q):
+            return flip[kind]
+    return None
+
+
+class _MinMax(ast.NodeTransformer):
+    """replace min(a, b) / max(a, b) by the argument the facts select; records undecidable ones"""
+    def __init__(self, facts):
+        self.facts, self.unknown = facts, []
+
+    def visit_Call(self, node):
+        node = self.generic_visit(node)
+        fn = dotted(node.func)
+        if fn in ("min", "max") and len(node.args) == 2 and not node.keywords:
+            a, b = node.args
+            sg = _sign_under(poly_sub(poly(a), poly(b)), self.facts)
+            if sg is None:
+                self.unknown.append(unparse(node))
+                return node
+            a_ge_b = sg in ("pos", "nonneg", "zero")
+            if fn == "max":
+                return a if a_ge_b else b
+            return b if a_ge_b else a
+        return node
+
+
+def _truth_under(test, facts):
+    """three-valued truth of a (possibly compound) arithmetic comparison under sign facts"""
+    if isinstance(test, ast.BoolOp):
+        vals = [_truth_under(v, facts) for v in test.values]
+        if isinstance(test.op, ast.And):
+            if any(v is False for v in vals):
+                return False
+            return True if all(v is True for v in vals) else None
+        if any(v is True for v in vals):
+            return True
+        return False if all(v is False for v in vals) else None
+    if isinstance(test, ast.UnaryOp) and isinstance(test.op, ast.Not):
+        v = _truth_under(test.operand, facts)
+        return None if v is None else not v
+    cn = compare_norm(test)
+    if cn is None:
+        return None
+    pol_, op = cn
+    sg = _sign_under(pol_, facts)
+    if sg is None:
+        return None
+    table = {
+        "<": {"neg": True, "nonneg": False, "pos": False, "zero": False},
+        "<=": {"neg": True, "nonpos": True, "pos": False, "zero": True},
+        ">": {"pos": True, "nonpos": False, "neg": False, "zero": False},
+        ">=": {"pos": True, "nonneg": True, "neg": False, "zero": True},
+        "==": {"pos": False, "neg": False, "zero": True},
+        "!=": {"pos": True, "neg": True, "zero": False},
+    }
+    return table[op].get(sg)
+
+
 def _check_concat_window(ctx, R, cons, where, lf, name, startname, L, i_lhs, i_start, i_rhs, i_len):
+    """Concat target: every part receives the intersection of the written window with its own extent.  The four cases
+    (window starts before the part or not; reaches the part's end or not) are checked against
+        part window start = max(start - ps, 0), rhs start = max(ps - start, 0), rhs stop = min(len, pe - start)
+    whether the code enumerates them with if/else or computes them with min()/max()."""
     loops = [s for s in lf.body if isinstance(s, ast.For)]
     need(len(loops) == 1 and unparse(loops[0].iter) == "lhs.parts", f"{cons}: loop over lhs.parts not found")
     loop = loops[0]
-    # accumulators: part_start = part_stop(prev); part_stop = part_start + len(part), starting from 0
-    init = [s for s in lf.body if isinstance(s, ast.Assign) and unparse(s.targets[0]) == "part_stop" and const_int(s.value) == 0]
-    need(len(init) == 1, f"{cons}: part_stop = 0 initialisation not found")
-    paths = run_paths(loop.body)
-    env0 = {"part_stop": ast.Name(id="PREV", ctx=ast.Load())}
+    pre = lf.body[:lf.body.index(loop)]
+    accs = [unparse(s.targets[0]) for s in pre if isinstance(s, ast.Assign) and unparse(s.targets[0]) in ("part_stop", "part_start")
+            and const_int(s.value) == 0]
+    need(len(accs) == 1, f"{cons}: the running part position (part_stop = 0 / part_start = 0 before the loop) was not found")
+    acc = accs[0]
+    prepaths = run_paths([s for s in pre if not (isinstance(s, ast.Assign) and unparse(s.targets[0]) == acc)])
+    need(len(prepaths) == 1, f"{cons}: branching code before the loop over lhs.parts")
+    env0 = dict(prepaths[0].env)
+    env0[acc] = ast.Name(id="PREV", ctx=ast.Load())
     paths = run_paths(loop.body, env0)
-    c1 = compare_norm(ast.parse(f"{startname} < PREV", mode="eval").body)                 # window starts before the part
-    c2 = compare_norm(ast.parse(f"{startname} + {L} >= PREV + len(part)", mode="eval").body)  # window reaches the part's end
-    skip_a = compare_norm(ast.parse(f"{startname} >= PREV + len(part)", mode="eval").body)
-    skip_b = compare_norm(ast.parse(f"{startname} + {L} <= PREV", mode="eval").body)
-    n_checked = 0
+    S = startname
+    c1p = _P(f"{S} - PREV")                          # < 0: the window starts before the part
+    c2p = _P(f"{S} + {L} - PREV - len(part)")        # >= 0: the window reaches the part's end
+    ov1 = (_P(f"{S} - PREV - len(part)"), "neg")     # overlap: start < part end
+    ov2 = (_P(f"{S} + {L} - PREV"), "pos")           # overlap: window end > part start
+    skip_a_facts = [(_P(f"{S} - PREV - len(part)"), "nonneg")]
+    skip_b_facts = [(_P(f"{S} + {L} - PREV"), "nonpos")]
     bad = []
+    checked = set()
     saw_skip = {"a": False, "b": False}
+    called_paths = []
     for p in paths:
-        if p.how == "continue":
-            if _case_truth(p.conds, skip_a) is True:
-                saw_skip["a"] = True
-            if _case_truth(p.conds, skip_b) is True:
-                saw_skip["b"] = True
-            continue
         calls = [n for e in p.effects for n in ast.walk(e)
                  if isinstance(n, ast.Call) and dotted(n.func) in (name, "self." + name)]
         if not calls:
+            # a path that does nothing for this part: it must be one of the two disjointness situations
+            for key, facts in (("a", skip_a_facts), ("b", skip_b_facts)):
+                if all(_truth_under(t, facts) in (pol, None) for t, pol in p.conds) and \
+                        any(_truth_under(t, facts) == pol for t, pol in p.conds):
+                    saw_skip[key] = True
             continue
+        called_paths.append(p)
         c = calls[0]
-        t1, t2 = _case_truth(p.conds, c1), _case_truth(p.conds, c2)
-        if t1 is None or t2 is None:
-            raise AnalysisError(f"{where}: cannot classify a Concat window path ({p.cond_text()})")
-        # reference quantities
-        ref_lstart = _P("0") if t1 else _P(f"{startname} - PREV")
-        ref_rstart = _P(f"PREV - {startname}") if t1 else _P("0")
-        ref_rstop = _P(f"PREV + len(part) - {startname}") if t2 else _P(L)
-        got_lstart = poly(c.args[i_start])
-        if unparse(c.args[i_lhs]) != "part":
-            bad.append(f"descends into {unparse(c.args[i_lhs])}, expected part")
-        if got_lstart != ref_lstart:
-            bad.append(f"case(before={t1},reaches_end={t2}): part window start {poly_text(got_lstart)} != {poly_text(ref_lstart)}")
-        rhs = c.args[i_rhs]
-        if i_len is None:
-            m = pmatch("rhs[_V_A:_V_B]", rhs)
-            if m is None:
-                bad.append(f"rhs argument {unparse(rhs)} is not rhs[a:b]")
-            else:
-                if poly(m["_V_A"]) != ref_rstart:
-                    bad.append(f"case(before={t1},reaches_end={t2}): rhs slice start {poly_text(poly(m['_V_A']))} != {poly_text(ref_rstart)}")
-                if poly(m["_V_B"]) != ref_rstop:
-                    bad.append(f"case(before={t1},reaches_end={t2}): rhs slice stop {poly_text(poly(m['_V_B']))} != {poly_text(ref_rstop)}")
-        else:
-            got_len = poly(c.args[i_len])
-            ref_len = poly_sub(ref_rstop, ref_rstart)
-            if got_len != ref_len:
-                bad.append(f"case(before={t1},reaches_end={t2}): part rhs length {poly_text(got_len)} != {poly_text(ref_len)}")
-            m = pmatch("rhs >> _V_A & (1 << _V_N) - 1", rhs)
-            if m is None:
-                bad.append(f"rhs argument {unparse(rhs)} is not (rhs >> a) & mask(n)")
-            else:
-                if poly(m["_V_A"]) != ref_rstart:
-                    bad.append(f"rhs shift {poly_text(poly(m['_V_A']))} != {poly_text(ref_rstart)}")
-                if poly(m["_V_N"]) != ref_len:
-                    bad.append(f"rhs mask width {poly_text(poly(m['_V_N']))} != {poly_text(ref_len)}")
-        n_checked += 1
-    need(n_checked == 4, f"{cons}: expected 4 window cases, analysed {n_checked}")
+        for t1 in (True, False):
+            for t2 in (True, False):
+                facts = [(c1p, "neg" if t1 else "nonneg"), (c2p, "nonneg" if t2 else "neg"), ov1, ov2]
+                if any(_truth_under(t, facts) not in (pol, None) for t, pol in p.conds):
+                    continue        # this case does not take this path
+                ref_lstart = _P("0") if t1 else _P(f"{S} - PREV")
+                ref_rstart = _P(f"PREV - {S}") if t1 else _P("0")
+                ref_rstop = _P(f"PREV + len(part) - {S}") if t2 else _P(L)
+                mmx = _MinMax(facts)
+                import copy as _copy
+                args = [mmx.visit(_copy.deepcopy(a_)) for a_ in c.args]
+                if mmx.unknown:
+                    raise AnalysisError(f"{where}: cannot decide {mmx.unknown[0]} in the Concat window arithmetic")
+                tag = f"case(before={t1},reaches_end={t2})"
+                checked.add((t1, t2))
+                if unparse(args[i_lhs]) != "part":
+                    bad.append(f"descends into {unparse(args[i_lhs])}, expected part")
+                if poly(args[i_start]) != ref_lstart:
+                    bad.append(f"{tag}: part window start {poly_text(poly(args[i_start]))} != {poly_text(ref_lstart)}")
+                rhs = args[i_rhs]
+                if i_len is None:
+                    m = pmatch("rhs[_V_A:_V_B]", rhs)
+                    if m is None:
+                        bad.append(f"rhs argument {unparse(rhs)} is not rhs[a:b]")
+                    else:
+                        if poly(m["_V_A"]) != ref_rstart:
+                            bad.append(f"{tag}: rhs slice start {poly_text(poly(m['_V_A']))} != {poly_text(ref_rstart)}")
+                        if poly(m["_V_B"]) != ref_rstop:
+                            bad.append(f"{tag}: rhs slice stop {poly_text(poly(m['_V_B']))} != {poly_text(ref_rstop)}")
+                else:
+                    ref_len = poly_sub(ref_rstop, ref_rstart)
+                    if poly(args[i_len]) != ref_len:
+                        bad.append(f"{tag}: part rhs length {poly_text(poly(args[i_len]))} != {poly_text(ref_len)}")
+                    m = pmatch("rhs >> _V_A & (1 << _V_N) - 1", rhs)
+                    if m is None:
+                        bad.append(f"rhs argument {unparse(rhs)} is not (rhs >> a) & mask(n)")
+                    else:
+                        if poly(m["_V_A"]) != ref_rstart:
+                            bad.append(f"{tag}: rhs shift {poly_text(poly(m['_V_A']))} != {poly_text(ref_rstart)}")
+                        if poly(m["_V_N"]) != ref_len:
+                            bad.append(f"{tag}: rhs mask width {poly_text(poly(m['_V_N']))} != {poly_text(ref_len)}")
+    need(len(checked) == 4, f"{cons}: expected 4 window cases, analysed {sorted(checked)}")
     ok = not bad and saw_skip["a"] and saw_skip["b"]
     ctx.check(ok, R, cons, "four window cases equal max(start-ps,0) / max(ps-start,0) / min(len, pe-start); "
                            "disjoint parts skipped",
-              f"Concat window arithmetic deviates from the reference: {bad or ''} skip-before={saw_skip['a']} "
+              f"Concat window arithmetic deviates from the reference: {sorted(set(bad)) or ''} skip-before={saw_skip['a']} "
               f"skip-after={saw_skip['b']}", where)
-    # accumulator: part_start = previous part_stop ; part_stop = part_start + len(part)
-    p0 = [p for p in paths if p.how != "continue"][0]
-    okacc = poly(p0.env["part_stop"]) == _P("PREV + len(part)") and poly(p0.env["part_start"]) == _P("PREV")
-    ctx.check(okacc, R, cons + ":accumulator", "part_start = previous stop; part_stop = part_start + len(part)",
-              f"Concat part bounds must accumulate as start=prev stop, stop=start+len(part); found "
-              f"start={unparse(p0.env['part_start'])}, stop={unparse(p0.env['part_stop'])}", where)
+    # the running position advances by len(part) on every path through the loop body, skipped parts included
+    okacc = bool(paths)
+    for p in paths:
+        if p.how not in ("fall", "continue"):
+            continue
+        e_ = p.env.get(acc)
+        okacc = okacc and e_ is not None and poly(e_) == _P("PREV + len(part)")
+    ctx.check(okacc, R, cons + ":accumulator", "the part position advances by len(part) for every part",
+              f"Concat part bounds must accumulate (start = previous stop, stop = start + len(part)) for every part, also the "
+              f"skipped ones; `{acc}` after one iteration: {sorted({unparse(p.env.get(acc)) for p in paths if p.env.get(acc) is not None})}", where)
 
 
 def _part_clip(lf, name, startname, L, i_lhs, i_start, i_rhs, i_len):
@@ -1130,6 +1240,22 @@ def r02f(model, ctx):
             pmatch("signal.shape().signed and mask & 1 << len(signal) - 1", s.test) is not None]
     ok = len(hits) == 1 and len(hits[0].body) == 1 and isinstance(hits[0].body[0], ast.AugAssign) and \
         isinstance(hits[0].body[0].op, ast.BitOr) and unparse(hits[0].body[0].value) == "-1 << len(signal)"
+    # ... and the commit itself goes through that mask: slots[i].update(next_i, mask) with the mask of the bits this process
+    # drives (an unmasked commit lets a process overwrite bits of the signal that are driven elsewhere)
+    commits = []
+    for lp in ast.walk(fc):
+        if isinstance(lp, ast.For) and unparse(lp.iter).endswith(".masks()") and isinstance(lp.target, ast.Tuple) and len(lp.target.elts) == 2:
+            for c in ast.walk(lp):
+                if isinstance(c, ast.Call) and isinstance(c.func, ast.Attribute) and c.func.attr == "append" and c.args:
+                    t = template_of(c.args[0])
+                    if t is not None and t.skeleton().startswith("slots[{0}].update(next_"):
+                        commits.append((t, unparse(lp.target.elts[1]), c.lineno))
+    need(len(commits) >= 1, "_FragmentCompiler.__call__: the commit `slots[i].update(next_i, ..)` emission was not found")
+    badc = [(t, ln) for t, mvar, ln in commits
+            if not (t.skeleton() == "slots[{0}].update(next_{1}, {2})" and t.holes[0].src == t.holes[1].src and t.holes[2].src == mvar)]
+    ctx.check(not badc, R, "_FragmentCompiler:commit-masked", "slots[i].update(next_i, mask) with the collector's mask for that signal",
+              f"every commit of a process must be `slots[i].update(next_i, mask)` with the mask of the bits it drives; found "
+              f"{[(t.skeleton(), [h.src for h in t.holes]) for t, _ in badc]}", f"{PYRTL}:{badc[0][1] if badc else commits[0][2]}")
     ctx.check(ok, R, "_FragmentCompiler:commit-mask-sign-extension",
               "mask |= -1 << len(signal) iff signed and MSB driven",
               "the commit mask of a signed signal must be extended with -1 << len(signal) exactly when its MSB is "
